@@ -89,6 +89,11 @@ def order_preserving(prog, bodies, stop_at=()):
                 continue
             last = c.nsyn.rsplit("::", 1)[-1]
             if (c.nsyn.startswith(("std::iter::Iterator::", "std::vec::Vec::", "core::slice::<impl [T]>::", "std::slice::<impl [T]>::", "std::iter::DoubleEndedIterator::")) and last in FORBIDDEN_ADAPTORS):
+                # only the sequence of records / flowsets / common flows is ordered by the property; the fields of
+                # one record may be searched in any order (`record.values().rev().find(..)`, a sorted per-record index)
+                recv = " ".join([str(x) for x in (t.get("argtys") or [])[:1]] + [str(a) for a in (c.args or [])[:1]])
+                if not re.search(r"FlowSet\b|(Iter(Mut)?<'?\w*,? ?|Vec<|\[)std::collections::BTreeMap<", recv):
+                    continue
                 bad.append("%s at %s" % (c.nsyn, b.line(blk)))
     return bad
 
@@ -106,22 +111,44 @@ def is_element(e):
     return False
 
 
-def keys_in(an, prog, e, depth=0, tmap=None):
-    """Variant names used as keys of BTreeMap::get inside expression e (following closures)."""
+def keys_in(an, prog, e, depth=0, tmap=None, enum=None):
+    """Variant names used as keys of BTreeMap::get inside expression e (following closures); with `enum`, also the
+    variants of that field-name enum handed as constants to whatever does the lookup (`find_field(rec, Enum::K)`,
+    `rec.iter().find(|(f, _)| *f == Enum::K)`): which key constants reach the operand is what the rule compares."""
     out = []
     if tmap:
         from ..slicer import subst_types
         e = an.simp(subst_types(e, tmap))
+    if enum:
+        for n in find(e, lambda n: n[0] == "agg" and n[1] == enum and not n[3]):
+            out.append(n[2])
     for n in find(e, lambda n: n[0] == "call" and n[2] is not None and n[2].npath in GET):
         k = peel(an.simp(n[3][1]))
         if k[0] == "agg":
             out.append(k[2])
         else:
             out.append("?" + canon(k)[:60])
+    called = set()
     if depth < 3:
+        # a local closure called directly with the keys as arguments: `let addr = |v4, v6| ..; addr(K4, K6)`
+        for n in find(e, lambda n: n[0] == "call" and n[2] is not None and n[2].nsyn in ("std::ops::Fn::call", "std::ops::FnMut::call_mut", "std::ops::FnOnce::call_once") and len(n[3]) == 2):
+            clo = peel(n[3][0], identity=(), casts=False)
+            while clo[0] in ("ref", "deref"):
+                clo = peel(clo[1], identity=(), casts=False)
+            tup = peel(n[3][1])
+            if clo[0] == "closure" and tup[0] == "tuple":
+                called.add(id(clo))
+                called.add(canon(clo))
+                sub = an.interp.apply(clo, list(tup[1]))
+                out = [k for k in out if not k.startswith("?")] if False else out
+                out += keys_in(an, prog, sub, depth + 1, tmap, enum)
         for c in find(e, lambda n: n[0] == "closure"):
+            if canon(c) in called:
+                continue
             sub = an.interp.apply(c, [("sym", "x")])
-            out += keys_in(an, prog, sub, depth + 1, tmap)
+            out += keys_in(an, prog, sub, depth + 1, tmap, enum)
+    if enum and any(not k.startswith("?") for k in out):
+        out = [k for k in out if not k.startswith("?")] if all(k.startswith("?arg") or k.startswith("?('sym'") or not k.startswith("?") for k in out) else out
     return out
 
 
@@ -490,6 +517,13 @@ def run(ctx, env):
                 for _, _, cc in cb.calls():
                     if cc is not None and cc.local and cc.path == b.path.split("::{closure")[0] and len(cc.args or []) == len(gens):
                         insts.add(tuple(cc.args))
+            # ... or the helper handed over as a function value: `.map(project_record::<V9Field>)`
+            for cb in rb.values():
+                ops = [a for _, t0, _ in cb.calls() for a in t0["args"]] + [st["rv"]["op"] for _, _, st in cb.stmts() if st["k"] == "assign" and st["rv"]["k"] in ("use", "cast") and isinstance(st["rv"].get("op"), dict)]
+                for a in ops:
+                    fnj = a.get("fn") if a.get("k") == "const" else None
+                    if fnj and fnj.get("path") == b.path.split("::{closure")[0] and len(fnj.get("args") or []) == len(gens):
+                        insts.add(tuple(fnj["args"]))
             if len(insts) == 1:
                 tmap = dict(zip(gens, insts.pop()))
         # ... and its value parameters (`to_common(&self, names: &FieldNames<F>)` called with `&V9_FIELD_NAMES`)
@@ -511,7 +545,7 @@ def run(ctx, env):
             if tmap:
                 from ..slicer import subst_types
                 e = an.simp(subst_types(e, tmap))
-            ks = keys_in(an, prog, e, 0, tmap)
+            ks = keys_in(an, prog, e, 0, tmap, P["enum"])
             want = P["keys"][nm]
             # which of several keys is preferred when a record carries more than one is not part of the property
             ctx.ob("R13.2", P["fn"], "keys:%s" % nm, sorted(set(ks)) == sorted(set(want)), "%s looks up %s, expected %s" % (nm, ks, want), site=site(s["span"]))
